@@ -258,13 +258,23 @@ func runC14(o *opts) (*summary, error) {
 		put(jsonRT("segments", zone, segmentsSem(sg), sg, func() any { return new(types.Segments) }, func(x any) any { return segmentsSem(x.(types.Segments)) }), "json-segments")
 		fy, fm, fd := g.ymd()
 		ty, tm, td := g.ymd()
-		tp := types.TimeProfile{ID: uint8(rng.Intn(256)), LinkedProfileID: uint8(rng.Intn(256)), From: types.ToDate(fy, time.Month(fm), fd), To: types.ToDate(ty, time.Month(tm), td), Weekdays: mkWeekdays(), Segments: mkSegments()}
+		// (open-ended validity: the zero date at either end, or both - "from:-", "-:to" are values like any other)
+		dFrom, dTo := types.ToDate(fy, time.Month(fm), fd), types.ToDate(ty, time.Month(tm), td)
+		switch i % 7 {
+		case 3:
+			dFrom = types.Date{}
+		case 4:
+			dTo = types.Date{}
+		case 5:
+			dFrom, dTo = types.Date{}, types.Date{}
+		}
+		tp := types.TimeProfile{ID: uint8(rng.Intn(256)), LinkedProfileID: uint8(rng.Intn(256)), From: dFrom, To: dTo, Weekdays: mkWeekdays(), Segments: mkSegments()}
 		ptp := func(x types.TimeProfile) any {
 			return M{"id": int(x.ID), "linked": int(x.LinkedProfileID), "from": projDate(x.From), "to": projDate(x.To), "weekdays": weekdaysSem(x.Weekdays), "segments": segmentsSem(x.Segments)}
 		}
 		put(jsonRT("timeprofile", zone, ptp(tp), tp, func() any { return new(types.TimeProfile) }, func(x any) any { return ptp(x.(types.TimeProfile)) }), "json-timeprofile")
 		start, _ := g.hhmm()
-		tk := types.Task{Task: types.TaskType(rng.Intn(13)), Door: uint8(rng.Intn(256)), From: types.ToDate(fy, time.Month(fm), fd), To: types.ToDate(ty, time.Month(tm), td), Weekdays: mkWeekdays(), Start: start, Cards: uint8(rng.Intn(256))}
+		tk := types.Task{Task: types.TaskType(rng.Intn(13)), Door: uint8(rng.Intn(256)), From: dFrom, To: dTo, Weekdays: mkWeekdays(), Start: start, Cards: uint8(rng.Intn(256))}
 		ptk := func(x types.Task) any {
 			return M{"task": int(x.Task), "door": int(x.Door), "from": projDate(x.From), "to": projDate(x.To), "weekdays": weekdaysSem(x.Weekdays), "start": projHHmm(x.Start), "cards": int(x.Cards)}
 		}
